@@ -5,6 +5,7 @@ package hx
 // "observe", prints everything the property lists as observable.
 
 import (
+	"encoding/json"
 	"context"
 	"fmt"
 	"os"
@@ -24,6 +25,7 @@ type C03World struct {
 	KV     kvi.KVInterface
 	DB     gdbi.GraphDB
 	seen   map[string]string
+	hist   map[string]map[string]string // graph name → timestamp → content (V and E listings) seen under it
 }
 
 func NewC03World(driver string) *C03World {
@@ -51,6 +53,7 @@ func (w *C03World) Reset() {
 	}
 	w.DB = kvgraph.NewKVGraph(w.KV)
 	w.seen = map[string]string{}
+	w.hist = nil
 }
 
 func (w *C03World) Destroy() {
@@ -218,6 +221,26 @@ func (w *C03World) graphObs(name string, ids, eids, labels []string) map[string]
 		o["ts"] = "same"
 	default:
 		o["ts"] = "changed"
+	}
+	// "a client seeing an unchanged timestamp may reuse cached results" holds against EVERY earlier
+	// observation of the name, not only the previous one: a stamp that comes back (after the graph was
+	// dropped and rebuilt, say) while the graph's content differs from what it was under that stamp
+	// is reported as "reused" (no model answer says that)
+	if ts != "" {
+		cb, _ := json.Marshal([]interface{}{o["V"], o["E"]})
+		content := string(cb)
+		if w.hist == nil {
+			w.hist = map[string]map[string]string{}
+		}
+		h := w.hist[name]
+		if h == nil {
+			h = map[string]string{}
+			w.hist[name] = h
+		}
+		if old, ok := h[ts]; ok && old != content && !(had && prev == ts) {
+			o["ts"] = "reused"
+		}
+		h[ts] = content
 	}
 	return o
 }
